@@ -32,6 +32,7 @@ type TNode struct {
 	Mutex    bool       `json:"mutex,omitempty"`
 	VPol     int        `json:"vpol,omitempty"`         // validity policy: 1 pure accepting closure, 2 pure rejecting closure
 	NoNest   bool       `json:"nonest_after,omitempty"` // no-nesting switched on AFTER the elements were pushed
+	PPol     bool       `json:"ppol,omitempty"`         // pure presentation policy (constant text)
 	ReadOnly bool       `json:"ro,omitempty"`
 	Alias    int        `json:"alias,omitempty"` // 0 native, 1 AStack, 2 *AStack, 3 SStack, 4 *SStack / same for conditions
 	Kids     []*TNode   `json:"kids,omitempty"`
@@ -223,6 +224,9 @@ func (n *TNode) BuildStack() stackage.Stack {
 	}
 	if n.NoNest {
 		s.SetNoNesting(true)
+	}
+	if n.PPol {
+		s.SetPresentationPolicy(func(...any) string { return "<presented>" })
 	}
 	switch n.VPol {
 	case 1:
